@@ -119,11 +119,21 @@ func Decode(r io.Reader, binaryFrame bool) (*Packet, error) {
 	return decode(buf, binaryFrame)
 }
 
-func DecodeWithLen(r io.Reader, binaryFrame bool, len int) (*Packet, error) {
-	buf := make([]byte, len)
-	_, err := io.ReadFull(r, buf)
+func DecodeWithLen(r io.Reader, binaryFrame bool, n int) (*Packet, error) {
+	if n < 0 {
+		return nil, errInvalidPacketSize
+	}
+	// Grow the buffer with the data that actually arrives
+	// instead of trusting the announced length.
+	buf, err := io.ReadAll(io.LimitReader(r, int64(n)))
 	if err != nil {
 		return nil, err
+	}
+	if len(buf) < n {
+		if len(buf) == 0 && n > 0 {
+			return nil, io.EOF
+		}
+		return nil, io.ErrUnexpectedEOF
 	}
 	return decode(buf, binaryFrame)
 }
